@@ -1,6 +1,7 @@
 CONSTANTS MaxObjs = 3
 MaxDepth = 5
 NOps = 2
+AllowedOps = {"new", "copy", "use", "del"}
 EmitHist = FALSE
 SPECIFICATION Spec
 INVARIANT LineagesAreIncreasing
